@@ -81,3 +81,79 @@ def calc_peak(V):
             j = V.skolem('jw')
             out.prove('attained', T.sor(T.seq(p, V.itp.lib.models.np_max(m)), T.seq(p, T.sneg(V.itp.lib.models.np_min(m)))))
         out.unchanged('m', m)
+
+
+# ------------------------------------------------------------------------------------------------ object level
+import contracts_common_signal as CS
+
+
+def _increments(V, out, v, d, a, n, dt, trap, tag):
+    out.prove(tag + 'lengths', T.sand(T.seq(v.shape[0], n), T.seq(d.shape[0], n)))
+    out.prove(tag + 'start-at-zero', T.sand(T.seq(v[0], 0), T.seq(d[0], 0)))
+    for i in V.idx(1, n, 'i'):
+        if trap:
+            out.prove(tag + 'v-increment-trapezoid', T.seq(T.ssub(v[i], v[i - 1]), T.sdiv(T.smul(dt, T.sadd(a[i], a[i - 1])), 2)))
+            out.prove(tag + 'd-increment-trapezoid', T.seq(T.ssub(d[i], d[i - 1]), T.sdiv(T.smul(dt, T.sadd(v[i], v[i - 1])), 2)))
+        else:
+            out.prove(tag + 'v-increment-rectangle', T.seq(T.ssub(v[i], v[i - 1]), T.smul(dt, a[i - 1])))
+            out.prove(tag + 'd-increment-rectangle', T.seq(T.ssub(d[i], d[i - 1]), T.smul(dt, v[i])))
+
+
+@unit('C08', 'AccSignal.velocity/displacement', functions=['eqsig.single.AccSignal.velocity', 'eqsig.single.AccSignal.displacement',
+                                                          'eqsig.single.AccSignal.generate_displacement_and_velocity_series'],
+      cases=[dict(how='lazy'), dict(how='generate-trap'), dict(how='generate-rect'), dict(how='generate-rect-then-trap')], modes=('unbounded',))
+def object_series(V, how):
+    """From an ARBITRARY object state (any cache warm or cold): lazy access gives the trapezoid series; an explicit
+    generate_displacement_and_velocity_series(trap=...) call makes the object report the series of the requested rule."""
+    st = {}
+
+    def setup():
+        CS.install_cache_summaries(V)
+        o = CS.make_state(V, 'AccSignal')
+        st['o'] = o
+        return ((o,), {})
+
+    def op(itp, o):
+        gen = lambda **kw: itp.call(itp.get_attr(o, 'generate_displacement_and_velocity_series'), [], kw)
+        if how == 'generate-trap':
+            gen(trap=True)
+        elif how == 'generate-rect':
+            gen(trap=False)
+        elif how == 'generate-rect-then-trap':
+            gen(trap=False)
+            gen(trap=True)
+        return itp.get_attr(o, 'velocity'), itp.get_attr(o, 'displacement')
+    for out in V.run(op, setup):
+        if not out.no_raise():
+            continue
+        o = st['o']
+        out.replay_info = dict(module='objects', kind='c08-series', how=how)
+        v, d = out.result
+        a, n, dt = o.attrs['_values'], o.attrs['_npts'], o.attrs['_dt']
+        _increments(V, out, v, d, a, n, dt, how != 'generate-rect', '')
+
+
+@unit('C08', 'AccSignal.pga/pgv/pgd', functions=['eqsig.single.AccSignal.pga', 'eqsig.single.AccSignal.pgv', 'eqsig.single.AccSignal.pgd'],
+      cases=[dict(which='pga'), dict(which='pgv'), dict(which='pgd')], modes=('unbounded',))
+def object_peaks(V, which):
+    st = {}
+
+    def setup():
+        CS.install_cache_summaries(V)
+        o = CS.make_state(V, 'AccSignal')
+        st['o'] = o
+        return ((o,), {})
+
+    def op(itp, o):
+        return itp.get_attr(o, which)
+    for out in V.run(op, setup):
+        if not out.no_raise():
+            continue
+        o = st['o']
+        a, n, dt = o.attrs['_values'], o.attrs['_npts'], o.attrs['_dt']
+        vel = V.np.sp_cumtrapz(a, dx=dt, initial=0)
+        series = {'pga': a, 'pgv': vel, 'pgd': V.np.sp_cumtrapz(vel, dx=dt, initial=0)}[which]
+        p = out.result
+        for i in V.idx(0, n, 'i'):
+            out.prove('peak-bounds-every-sample-of-the-right-series', T.sge(p, T.sabs(series[i])))
+        out.prove('peak-attained', T.sor(T.seq(p, V.np.np_max(series)), T.seq(p, T.sneg(V.np.np_min(series)))))
